@@ -389,8 +389,10 @@ class SpecialValueCanonicalization(ComparisonExpressionTransformer):
     in constant values.
     """
     def transform_comparison(self, ast):
-        if ast.operator in ("MATCHES", "LIKE"):
-            # The constant is a regular expression / a template, not a value.
+        if ast.operator in ("MATCHES", "LIKE", "<", ">", "<=", ">="):
+            # The constant is a regular expression / a template, not a value;
+            # or it is compared by text order, which canonicalization does
+            # not preserve.
             return ast, False
 
         if ast.lhs.object_type_name == "windows-registry-key":
